@@ -325,7 +325,8 @@ class Ctx:
             print("DRIFT: property=%s %s" % (self.pid, json.dumps(d)[:300]))
         replay_paths = []
         if violations:
-            rdir = os.path.join(ROOT, "replays", self.pid)
+            rdir = os.path.join(ROOT, "replays", self.pid) if not os.environ.get("VERIF_NOEVIDENCE") \
+                else os.path.join("/tmp", "verif-seed-replays", self.pid)
             os.makedirs(rdir, exist_ok=True)
             seen = set()
             for (r, u) in violations:
@@ -360,8 +361,11 @@ class Ctx:
         ev = {"property_id": self.pid, "tier": self.tier, "seed": self.seed, "level": self.level,
               "coverage": cov, "assumptions": self.assumptions, "wall_s": round(wall, 1),
               "violations": len(violations)}
-        os.makedirs(os.path.join(ROOT, "evidence"), exist_ok=True)
-        with open(os.path.join(ROOT, "evidence", self.pid + ".json"), "w") as f:
+        evdir = os.path.join(ROOT, "evidence")
+        if os.environ.get("VERIF_NOEVIDENCE"):       # checking a scratch tree (seeded change): leave evidence alone
+            evdir = os.path.join(self.work, "evidence")
+        os.makedirs(evdir, exist_ok=True)
+        with open(os.path.join(evdir, self.pid + ".json"), "w") as f:
             json.dump(ev, f, indent=1, default=str)
         print("%s %s seed=%d: cases=%d distinct=%d states=%d traces=%d failing=%d unexplained=%d wall=%.1fs" % (
             self.pid, self.tier, self.seed, self.results_n, len(self.nontrivial), self.states,
